@@ -7,8 +7,8 @@ CONSTANTS
   Starts = {2}
   InitBlocks = {1, 3}
   MaxMsgs = 0
-  Slack = 1
-  Faults = {"next"}
+  Slack = 0
+  Faults = {}
   BadMsgs = {FALSE}
   Prompt = FALSE
 INVARIANTS TypeOK BlockExactInit BlockExactEnd FinishExact NeverEarly InOrder RegisteredIff FailureOutcome FifoNoLoss NotToEarlierState Lockstep LockstepPrompt PromptExact
